@@ -185,6 +185,17 @@ def check(chk):
     _score_queue_adds(chk, repo)
     _remembered_selection(chk, repo, md, super_chain)
     _restart_list(chk, repo)
+    # the player a mode hands to its devices is the mode's own (set per turn for game modes, None for the others): never whoever is up
+    amd = repo.func("mpf/core/mode.py", "Mode._add_mode_devices")
+    chk.analysed(amd)
+    dl_ = [c for c in amd.calls() if call_attr(c) == "device_loaded_in_mode"]
+    from sa.helpers import bind_call
+    ok = len(dl_) == 1
+    if ok:
+        b_ = bind_call(dl_[0], md.methods["device_loaded_in_mode"].node)
+        ok = b_ is not None and src(b_.get("mode")) == "self" and src(b_.get("player")) == "self.player"
+    chk.ob("DOM-22", "a mode loads its devices with its own player (self.player): a mode outside the game binds its devices to no player", ok, amd.where(),
+           detail=src(dl_[0]) if dl_ else "", construct=amd.ident, text="device loaded with the mode's player")
     from sa.helpers import unload_cleanup_unconditional
     unload_cleanup_unconditional(chk, "PAIR-12")
 
@@ -643,6 +654,7 @@ def battery():
         M("restart only remembered for modes that stop at ball end", MC, "            if mode.restart_on_next_ball:", "            if mode.restart_on_next_ball and mode.auto_stop_on_ball_end:", "RESTART-11"),
         M("falsy previous value reported as 0", PL, "        new_entry = False\n        prev_value = 0\n        if name in self.vars:\n            prev_value = self.vars[name]\n        else:\n            new_entry = True\n", "        new_entry = name not in self.vars\n        prev_value = self.vars.get(name) or 0\n", "DOM-21"),
         M("twin: previous value by get with default", PL, "        new_entry = False\n        prev_value = 0\n        if name in self.vars:\n            prev_value = self.vars[name]\n        else:\n            new_entry = True\n", "        new_entry = name not in self.vars\n        prev_value = self.vars.get(name, 0)\n", None),
+        M("non-game mode devices bound to whoever is up", "mpf/core/mode.py", "                device.device_loaded_in_mode(mode=self, player=self.player)", "                device.device_loaded_in_mode(mode=self, player=self.player or (self.machine.game and self.machine.game.player))", "DOM-22"),
     ]
 
 
